@@ -227,6 +227,19 @@ func FixedFed3() FedSpec {
 	return buildFed([]string{"A", "B", "C"}, owners)
 }
 
+// FixedFed4 homes User.photos at two services, so that one fragment selecting it splits differently depending on
+// the service that is asked (the root asks A, a step at B keeps it at B).
+func FixedFed4() FedSpec {
+	owners := map[string][]string{
+		"Query.allUsers": {"A"}, "Query.user": {"A"}, "Query.me": {"A"}, "Query.pets": {"A"}, "Query.allPhotos": {"B"}, "Query.topPhoto": {"B"},
+		"Mutation.bump": {"A"}, "Mutation.touch": {"B"},
+		"User.firstName": {"C"}, "User.friends": {"B"}, "User.pet": {"A"}, "User.lastName": {"B"}, "User.photos": {"A", "B"}, "User.favorite": {"B"}, "User.nick": {"C"},
+		"Photo.url": {"C"}, "Photo.owner": {"B"}, "Photo.likes": {"A"}, "Photo.likedBy": {"C"},
+		"Cat.lives": {"A"}, "Cat.toys": {"C"}, "Dog.barks": {"B"}, "Dog.owner": {"B"},
+	}
+	return buildFed([]string{"A", "B", "C"}, owners)
+}
+
 // GenStore builds a data graph with nulls, empty lists, shared and cyclic references.
 func GenStore(r *rand.Rand, oddIDs bool) Store {
 	u := func(id string) Ref { return Ref{"User", id} }
